@@ -274,6 +274,11 @@ impl Monitor {
         };
     }
 
+    /// Does the host, judging by the responses it received, consider identification complete?
+    pub fn host_saw_identification_complete(&self) -> bool {
+        self.ready && (!self.v2 || self.cmd58_after_ready)
+    }
+
     /// End of the conversation: anything left open?
     pub fn finish(&mut self) {
         if self.in_multi_read {
